@@ -1344,6 +1344,14 @@ def call_builtin(ip, st, f, args, kwargs):
         items = args[0].seq if isinstance(args[0], LRef) else args[0]
         if isinstance(items, tuple) and all(isinstance(x, str) for x in items):
             return f(list(items))
+    # b"".rjust(n) / " ".ljust(n, "x") on a str / bytes CONSTANT with a symbolic width: the derived text of pyvc/textops.text_just
+    if getattr(f, "__name__", "") in ("rjust", "ljust") and type(getattr(f, "__self__", None)) in (str, bytes) and not (_all_conc(args) and _all_conc(list(kwargs.values()))):
+        from .text import as_text
+        from .textops import text_method as _tm
+
+        r = _tm(ip, st, as_text(f.__self__), f.__name__, args, kwargs)
+        if r is not NotImplemented:
+            return r
     # concrete call on concrete data of immutable builtin types: evaluate natively
     if _all_conc(args) and _all_conc(list(kwargs.values())) and _native_ok(f, args):
         try:
